@@ -54,7 +54,7 @@ def absorb(c):
     before = c.snapshot(rays=rays)
     rays.propagate(c.arr(t), mats.IdealMaterial(n=1.5, k=k))
     i1 = c.val(rays.i)
-    fac = c.exp(-(4 * c.const(math.pi) * k / w) * t * c.const(1e3))    # exp(-4 pi k d / lambda), d in microns
+    fac = c.exp(-(4 * c.pi * k / w) * t * c.const(1e3))    # exp(-4 pi k d / lambda), d in microns
     c.ensure_eq('C16.propagate.beer_lambert', i1, i0 * fac)
     I1 = c.abstract('I1', i1)
     Fa = c.abstract('Fa', fac)
@@ -130,7 +130,7 @@ def _surface_contract(reflective, with_ap, with_coat, with_k):
         i1 = c.val(rays.i)
         fac = 1
         if with_k:
-            fac = fac * c.exp(-(4 * c.const(math.pi) * k / w) * t * c.const(1e3))
+            fac = fac * c.exp(-(4 * c.pi * k / w) * t * c.const(1e3))
         if with_coat:
             fac = fac * (Rf if reflective else T)
         hit = tuple(pl[j] + t * dl[j] for j in range(3))
@@ -142,7 +142,7 @@ def _surface_contract(reflective, with_ap, with_coat, with_k):
         c.ensure_eq('C16.surface.record_is_ray_intensity', c.val(surf.intensity), i1)
         I1 = c.abstract('I1', i1)
         if with_k:
-            Fa = c.abstract('Fa', c.exp(-(4 * c.const(math.pi) * k / w) * t * c.const(1e3)))
+            Fa = c.abstract('Fa', c.exp(-(4 * c.pi * k / w) * t * c.const(1e3)))
             Tc = (Rf if reflective else T) if with_coat else 1
             if not clipped:
                 c.ensure('C16.surface.never_increases', I1 <= i0, using=[I1 == i0 * Fa * Tc, Fa <= 1, Fa > 0])
